@@ -22,7 +22,7 @@ if HERE not in sys.path:
 
 LAMINAPROP = (142.5e9, 8.7e9, 0.28, 5.1e9, 5.1e9, 5.1e9)
 ARPACK = {"lb", "freq", "an_lb", "an_freq"}       # results that pass through ARPACK (random start vector)
-NREF = 6                                          # reference runs that define the solver's own spread
+NREF = 5                                          # reference runs that define the solver's own spread
 
 
 def _np():
@@ -1170,32 +1170,30 @@ def _run(rep, rng, tier, seed, build, mutant, kinds, maxlen, scratch):
     elif not literal_false:
         rep.machinery("unexpected TLC result for the literal property: " + lit.errors())
 
-    # 2. thread partition specifications
+    # 2. thread partition specifications (TLC runs in the background while the replays go on)
+    side = cf.ThreadPoolExecutor(max_workers=3)
     inv = ("INVARIANT Shapes\nINVARIANT PointIInSlotI\nINVARIANT NoPadEscapes\nINVARIANT IndependentOfP\n"
            "INVARIANT NoRace\nCHECK_DEADLOCK FALSE\n")
-    fc = run_tlc("c20-fc", "MC_FieldChunks", "SPECIFICATION Spec\nCONSTANTS MaxS = 40\nMaxP = 16\n" + inv,
-                 workers=4, timeout=900, fast=False)
-    rep.add_tlc("MC_FieldChunks(S<=40,P<=16)", fc)
-    if not fc.ok:
-        rep.machinery("TLC on MC_FieldChunks failed: " + fc.errors())
     ipinv = ("INVARIANT RestNonNegative\nINVARIANT EachPointOnce\nINVARIANT NothingElse\nINVARIANT SerialAfterJoin\n"
              "CHECK_DEADLOCK FALSE\n")
-    ipruns = [("all thread orders", 60, 12 if quick else 16, "")]
+    side_jobs = [("MC_FieldChunks(S<=40,P<=16)",
+                  side.submit(run_tlc, "c20-fc", "MC_FieldChunks",
+                              "SPECIFICATION Spec\nCONSTANTS MaxS = 40\nMaxP = 16\n" + inv,
+                              workers=2, timeout=900, fast=False))]
+    ipruns = [("all thread orders", 60, 10 if quick else 16, "")]
     if quick:
         ipruns.append(("threads finish in index order", 60, 16, "CONSTRAINT InOrder\n"))
     for name, mn, mp, extra in ipruns:
-        ip = run_tlc("c20-ip", "MC_IntegratePartition",
-                     "SPECIFICATION Spec\nCONSTANTS MaxN = %d\nMaxP = %d\n%s%s" % (mn, mp, extra, ipinv),
-                     workers=8, timeout=1500, fast=False)
-        rep.add_tlc("MC_IntegratePartition(npts<=%d,P<=%d,%s)" % (mn, mp, name), ip)
-        if not ip.ok:
-            rep.machinery("TLC on MC_IntegratePartition failed: " + ip.errors())
+        side_jobs.append(("MC_IntegratePartition(npts<=%d,P<=%d,%s)" % (mn, mp, name),
+                          side.submit(run_tlc, "c20-ip%d" % mp, "MC_IntegratePartition",
+                                      "SPECIFICATION Spec\nCONSTANTS MaxN = %d\nMaxP = %d\n%s%s" % (mn, mp, extra, ipinv),
+                                      workers=2 if quick else 8, timeout=1500, fast=False)))
 
     # 3. binding A+B: replay TLC's paths on real objects, record, let Trace_Lifecycle judge
     plan, stats = {}, []
     for kind in kinds:
         g = graphs[kind]
-        budget = (len(g.edges) + 60) if quick else 800       # the edge cover is never cut; trajectories are sampled
+        budget = (len(g.edges) + 30) if quick else 800       # the edge cover is never cut; trajectories are sampled
         paths, st = choose_paths(g, maxlen, budget, rng)
         variants = 0 if quick else 2
         extra = []
@@ -1210,7 +1208,7 @@ def _run(rep, rng, tier, seed, build, mutant, kinds, maxlen, scratch):
             if m in g.methods and want != have:
                 rep.machinery("Touches(%s,%s) in Lifecycle.tla is %s but the harness passes %s"
                               % (kind, m, sorted(want), sorted(have)))
-        walks = random_walks(g, maxlen, 10 if quick else 200, rng)
+        walks = random_walks(g, maxlen, 6 if quick else 200, rng)
         seen = set(map(tuple, paths))
         for p in extra + walks:
             if tuple(p) not in seen:
@@ -1294,11 +1292,17 @@ def _run(rep, rng, tier, seed, build, mutant, kinds, maxlen, scratch):
 
     # 5. thread counts
     thread_checks(rep, tier, seed, build, scratch, mutant, kinds)
+    for name, fut in side_jobs:
+        res = fut.result()
+        rep.add_tlc(name, res)
+        if not res.ok:
+            rep.machinery("TLC on %s failed: %s" % (name, res.errors()))
+    side.shutdown()
 
     rep.cov["rule"] = ("one replay per (abstract state, method) pair explored by TLC (edge cover of the dumped graph), "
                        "per distinct trajectory of abstract states (%s; counts under coverage.graph) and seeded "
                        "random call sequences; every call is made twice; distinct = distinct (kind, call sequence)"
-                       % ("up to 60 per kind, 1 labelling" if quick else "up to 800 per kind, 3 labellings"))
+                       % ("up to 30 per kind, 1 labelling" if quick else "up to 800 per kind, 3 labellings"))
     rep.cov["exhaustive"] = False
     rep.assumptions += [
         "evaluation calls only; redefinitions between calls are outside the property",
